@@ -449,6 +449,34 @@ def check_C08(ctx):
                                   f"event #{i} is {evs[i] if i < len(evs) else 'missing'}, expected {want[i] if i < len(want) else 'nothing more'}; all events: {evs}",
                                   f"harness/nested_run {mode} {inner} {fx} <logfile>", found_input=True, facts={"nested_run": True, "mode": mode})
     ctx.coverage["nested_runs"] = 18
+    # the four spellings of a test definition through the real macros (Ensure / xEnsure, with and without a context)
+    fexe = compile_harness(ctx, bench.impl, "ensure_forms", ["ensure_forms.c"])
+    fshown = nforms = 0
+    TESTS = [("plain_runs", False, False), ("plain_is_skipped", True, False), ("in_context_runs", False, True), ("in_context_is_skipped", True, True)]
+    for fx in ("ctx", "suitefix"):
+        for mode in ["fork", "inproc"] + ["single:" + t for t, _, _ in TESTS]:
+            log = os.path.join(ctx.work, f"forms-{fx}-{mode.replace(':', '_')}.log")
+            e = dict(os.environ); e.pop("CGREEN_NO_FORK", None)
+            try:
+                r = subprocess.run([fexe, mode, fx, log], stdout=subprocess.PIPE, stderr=subprocess.PIPE, env=e, timeout=60)
+                out = r.stdout.decode("latin-1")
+            except subprocess.TimeoutExpired:
+                out = "timeout"
+            nforms += 1
+            evs = [l.split(" ", 1)[1] for l in open(log).read().split("\n") if " " in l] if os.path.exists(log) else []
+            want, npass, nskip = [], 0, 0
+            for t, skipped, inctx in TESTS:
+                if mode.startswith("single:") and mode[7:] != t: continue
+                if skipped: nskip += 1; continue
+                npass += 1
+                pre, post = (["suite_setup"], ["suite_teardown"]) if fx == "suitefix" else ((["before_each"], ["after_each"]) if inctx else ([], []))
+                want += pre + [f"body {t}"] + post
+            wtot = f"totals {npass} 0 {nskip} 0 rc 0"
+            if (evs != want or wtot not in out) and fshown < 4:
+                fshown += 1
+                ctx.violation(f"[C08] Ensure/xEnsure spellings ({mode}, {'suite fixtures' if fx == 'suitefix' else 'context fixtures'}): events {evs}, expected {want}; the run says `{out.strip()[:80]}`, expected `{wtot}`",
+                              f"harness/ensure_forms {mode} {fx} <logfile>", found_input=True, facts={"ensure_forms": True, "mode": mode.split(":")[0]})
+    ctx.coverage["ensure_forms_runs"] = nforms
     ctx.coverage["samples"] = sample_of(scens)
     ctx.coverage["evaluations"] = ctx.coverage["correspondence"]["cases"]
     ctx.coverage["distinct_nontrivial"] = len({s.text() for s in scens})
@@ -775,6 +803,10 @@ def check_C13(ctx):
         if rng.random() < 0.2:
             tests[0].body.append("S")
         root = S("top", items=[S("inner", items=[t.copy() for t in tests[:1]])] + [t.copy() for t in tests[1:]]) if i % 3 == 0 else S("top", items=[t.copy() for t in tests])
+        if i % 4 == 1 and len(tests) >= 4:
+            # three levels, with suites that do not hold the wanted test listed before the entry that does
+            cp = [t.copy() for t in tests]
+            root = S("top", items=[S("mid", items=[S("s1", items=cp[:1]), S("s2", items=cp[1:3]), cp[3]])] + cp[4:])
         a = len(scens)
         scens.append(Scen(root.copy(), mode="fork"))
         scens.append(Scen(root.copy(), mode="inproc"))
@@ -1859,6 +1891,29 @@ def gen_bind_tu(rng, nfuncs):
         expected.append((f"fn_{k} arity {n}: will_set_contents_of_parameter({near}, ...) naming an absent parameter", "0 1 -", snippet))
         calls.append(f'  {{ intptr_t got = -1; npass = nfail = 0; expect(fn_{k}, will_capture_parameter({near}, got)); fn_{k}({callargs}); clear_mocks(); printf("%d %d %s\\n", npass, nfail > 0, got == -1 ? "untouched" : "written"); }}')
         expected.append((f"fn_{k} arity {n}: will_capture_parameter({near}, ...) naming an absent parameter", "0 1 untouched", snippet))
+        # clauses written after a clause of another kind (a call count, a return value) are bound and validated all the same
+        for lead in ("times(1)", "will_return(3)", "times(1), will_return(3)"):
+            calls.append(f'  npass = nfail = 0; expect(fn_{k}, {lead}, when(no_such_parameter, is_equal_to(1))); fn_{k}({callargs}); clear_mocks(); printf("%d %d -\\n", npass, nfail > 0);')
+            expected.append((f"fn_{k} arity {n}: clause naming an absent parameter, written after {lead}", "0 1 -", snippet + f"\n/* expect(fn_{k}, {lead}, when(no_such_parameter, is_equal_to(1))); fn_{k}({callargs}); */"))
+            if n:
+                j = rng.randrange(n); a, d = args[j]
+                for right in (True, False):
+                    v = vals[j] if right else vals[j] + 1
+                    cons = f"is_equal_to_double({v}.5)" if d else f"is_equal_to({v})"
+                    calls.append(f'  npass = nfail = 0; expect(fn_{k}, {lead}, when({a}, {cons})); fn_{k}({callargs}); clear_mocks(); printf("%d %d -\\n", npass, nfail);')
+                    expected.append((f"fn_{k} arity {n}: when({a}, ...) written after {lead}, the argument {'matches' if right else 'does not match'}", "1 0 -" if right else "0 1 -", snippet + f"\n/* expect(fn_{k}, {lead}, when({a}, {cons})); fn_{k}({callargs}); */"))
+    # parameter names that are also macros where the expectations are written (a constant or a renaming defined after the
+    # mock function): a clause names the parameter as it is written, as mock(...) does
+    msnip = "static intptr_t fn_m(intptr_t length_m, intptr_t source_m, intptr_t target_m) { return mock(length_m, source_m, target_m); }\n#define length_m 512\n#define source_m target_m"
+    out.append(msnip)
+    for cl, want, desc in (("when(length_m, is_equal_to(11))", "1 0 -", "when() on a parameter whose name is a macro for a constant"),
+                           ("when(source_m, is_equal_to(22))", "1 0 -", "when() on a parameter whose name is a macro for another parameter"),
+                           ("when(source_m, is_equal_to(33))", "0 1 -", "when() on a parameter whose name is a macro for another parameter, the argument does not match"),
+                           ("when(target_m, is_equal_to(33))", "1 0 -", "when() on the parameter another one's name expands to")):
+        calls.append(f'  npass = nfail = 0; expect(fn_m, {cl}); fn_m(11, 22, 33); clear_mocks(); printf("%d %d -\\n", npass, nfail);')
+        expected.append((f"fn_m: {desc}", want, msnip + f"\n/* expect(fn_m, {cl}); fn_m(11, 22, 33); */"))
+    calls.append('  { intptr_t got = -1; npass = nfail = 0; expect(fn_m, will_capture_parameter(source_m, got)); fn_m(11, 22, 33); clear_mocks(); printf("%d %d %s\\n", npass, nfail, got == 22 ? "ok" : "wrong"); }')
+    expected.append(("fn_m: will_capture_parameter() on a parameter whose name is a macro for another parameter", "0 0 ok", msnip))
     out.append("int main(void) {\n  TestReporter *reporter = create_reporter();\n  reporter->assert_true = &capture;\n  setup_reporting(reporter);\n  current_test = &dummy;\n  setvbuf(stdout, NULL, _IONBF, 0);\n"
                "  /* the reporter's counters as a test finds them when earlier tests of its suite and earlier suites have failed */\n  reporter->failures = 2; reporter->total_failures = 5; reporter->passes = 1;")
     out += calls
